@@ -87,7 +87,7 @@ pub fn run(args: &Args) -> Report {
             }
         }
     } else {
-        let one = [(1u32, 1u32), (2, 1), (3, 2), (3, 3)];
+        let one = [(1u32, 1u32), (2, 1), (3, 2), (3, 3), (1, 3)];
         for a in one {
             for b in one {
                 cfgs.push((a, b));
@@ -104,7 +104,7 @@ pub fn run(args: &Args) -> Report {
             opener_plan: EndPlan::Split(vec![Op::Burst(n, 3), Op::Shutdown], vec![Op::ReadToEof(1)]),
             acceptor_plan: EndPlan::Split(vec![Op::Burst(n, 2), Op::Shutdown], vec![Op::ReadToEof(2)]),
         }];
-        let cfg = XferCfg { a, b, cap: 0, streams, stream_buffer: 4, one_byte_frames: false, dgram_pingpong: 0, dgram_buffer: 4, drop_mux_when_writers_done: None, horizon: 8000 };
+        let cfg = XferCfg { a, b, cap: 0, streams, stream_buffer: 4, one_byte_frames: false, dgram_pingpong: 0, dgram_buffer: 4, drop_mux_when_writers_done: None, extra: xfer::XferExtra::NONE, horizon: 8000 };
         let label = format!("multi-byte frames read in pieces | {}", cfg.describe());
         cases.push(Case { try_unbounded: false, max_k: u32::MAX, label, exec: Box::new(move |r| xfer::exec(&cfg, &or, r)) });
     }
@@ -112,7 +112,7 @@ pub fn run(args: &Args) -> Report {
         let n = 2 * a.0.max(b.0) as usize + 2;
         for cap in if thorough { vec![0usize, 1] } else { vec![0usize] } {
             for (name, streams) in scripts(n, thorough) {
-                let cfg = XferCfg { a, b, cap, streams, stream_buffer: 4, one_byte_frames: true, dgram_pingpong: 0, dgram_buffer: 4, drop_mux_when_writers_done: None, horizon: 6000 };
+                let cfg = XferCfg { a, b, cap, streams, stream_buffer: 4, one_byte_frames: true, dgram_pingpong: 0, dgram_buffer: 4, drop_mux_when_writers_done: None, extra: xfer::XferExtra::NONE, horizon: 6000 };
                 let label = format!("{name} | {}", cfg.describe());
                 cases.push(Case { try_unbounded: false, max_k: u32::MAX, label, exec: Box::new(move |r| xfer::exec(&cfg, &or, r)) });
             }
@@ -127,7 +127,7 @@ pub fn run(args: &Args) -> Report {
             opener_plan: EndPlan::Bridged(262_144, vec![Op::W(150_000), Op::Shutdown, Op::ReadToEof(4096)]),
             acceptor_plan: EndPlan::Seq(vec![Op::ReadToEof(65_536), Op::W(2), Op::Shutdown]),
         }];
-        let cfg = XferCfg { a, b, cap: 0, streams, stream_buffer: 4, one_byte_frames: false, dgram_pingpong: 0, dgram_buffer: 4, drop_mux_when_writers_done: None, horizon: 8000 };
+        let cfg = XferCfg { a, b, cap: 0, streams, stream_buffer: 4, one_byte_frames: false, dgram_pingpong: 0, dgram_buffer: 4, drop_mux_when_writers_done: None, extra: xfer::XferExtra::NONE, horizon: 8000 };
         let label = format!("bridged end with 150 kB ready at once | {}", cfg.describe());
         cases.push(Case { try_unbounded: false, max_k: 1, label, exec: Box::new(move |r| xfer::exec(&cfg, &or, r)) });
     }
@@ -139,7 +139,7 @@ pub fn run(args: &Args) -> Report {
             opener_plan: EndPlan::Seq(vec![Op::Burst(3, 1), Op::Shutdown, Op::ReadToEof(1)]),
             acceptor_plan: EndPlan::Seq(vec![Op::ReadToEof(1), Op::W(1), Op::Shutdown]),
         }];
-        let cfg = XferCfg { a, b, cap: 0, streams, stream_buffer: 4, one_byte_frames: true, dgram_pingpong: 0, dgram_buffer: 4, drop_mux_when_writers_done: None, horizon: 4000 };
+        let cfg = XferCfg { a, b, cap: 0, streams, stream_buffer: 4, one_byte_frames: true, dgram_pingpong: 0, dgram_buffer: 4, drop_mux_when_writers_done: None, extra: xfer::XferExtra::NONE, horizon: 4000 };
         let label = format!("tiny, all interleavings | {}", cfg.describe());
         cases.push(Case { try_unbounded: true, max_k: 2, label, exec: Box::new(move |r| xfer::exec(&cfg, &or, r)) });
     }
